@@ -192,13 +192,15 @@ Fixpoint set_nth_opt (l : list (option channel)) (i : nat) (v : option channel) 
   end.
 
 (* process_join_accept, CFList type 0: frequencies given in Hz (raw * 100) *)
-Fixpoint dyn_cflist (chs : list (option channel)) (idx : nat) (freqs : list N) : outcome (list (option channel)) :=
+Fixpoint dyn_cflist (r : rid) (chs : list (option channel)) (idx : nat) (freqs : list N) : outcome (list (option channel)) :=
   match freqs with
   | [] => Val chs
   | f :: rest =>
     if Nat.ltb idx (length chs) then
-      let c := if f =? 0 then None else Some {| ch_freq := f; ch_drs := 0x50; ch_dl := None |} in
-      dyn_cflist (set_nth_opt chs idx c) (S idx) rest
+      let chs' := if f =? 0 then set_nth_opt chs idx None
+                  else if frequency_valid r f then set_nth_opt chs idx (Some {| ch_freq := f; ch_drs := 0x50; ch_dl := None |})
+                  else chs in
+      dyn_cflist r chs' (S idx) rest
     else Panic
   end.
 
@@ -491,7 +493,7 @@ Inductive cfl := CflNone | CflDyn (freqs_hz : list N) | CflFix (m : list N).
 Definition region_join_accept (g : region) (c : cfl) : outcome region :=
   match rg_plan g, c with
   | PDyn p, CflDyn fs =>
-    match dyn_cflist (dp_channels p) (N.to_nat (r_num_join (rg_id g))) fs with
+    match dyn_cflist (rg_id g) (dp_channels p) (N.to_nat (r_num_join (rg_id g))) fs with
     | Val chs => Val {| rg_id := rg_id g; rg_plan := PDyn {| dp_channels := chs; dp_mask := dp_mask p |} |}
     | Panic => Panic | OutOfDraws => OutOfDraws
     end
